@@ -208,9 +208,11 @@ int main(int argc, char** argv)
 
     // bounds
     const int max_depth = big ? 3 : 2;          // histories (clean restarts everywhere)
-    const int crash_depth = big ? 2 : 1;        // histories whose last operation is crash-enumerated
+    const int crash_depth = 2;                  // histories whose last operation is crash-enumerated (quick: 4 chosen histories of that depth)
     const int torn_depth = big ? 1 : 0;         // ... additionally with torn last writes
-    auto crash_op = [&](int op) { return big || op == 12 || op % 4 == 0 || op % 4 == 3; }; // quick: legacy + bech32m (+ X)
+    // quick: crash points only in the last operation of these histories (an address was acknowledged by the first operation and the
+    // second one rewrites the same descriptor record: again an address, a clean restart's top-ups, a reserve+return)
+    const std::set<std::string> quick_crash{"R0 R0", "C3 C3", "R3 X", "C0 V0"};
     History replay_hist;
     if (!vx::ctx().replay.empty()) {
         std::ifstream f(vx::ctx().replay);
@@ -319,7 +321,7 @@ int main(int argc, char** argv)
                     if (o.path.rfind("OP ", 0) == 0) r.last_op_mark = k;
                 }
                 n_hist++;
-                bool crash = !replay_hist.empty() || (depth <= crash_depth && std::all_of(r.h.begin(), r.h.end(), crash_op));
+                bool crash = !replay_hist.empty() || (big ? depth <= crash_depth : quick_crash.count(HistStr(r.h)) > 0);
                 bool torn = !replay_hist.empty() || depth <= torn_depth;
                 vxc::State all;
                 all.j = r.log.ops.size(); all.k = r.log.ops.size(); all.mode = "clean";
@@ -393,7 +395,7 @@ int main(int argc, char** argv)
                 if (!cut_short && seen_keys.insert(runs[i].key).second) next_frontier.push_back(runs[i].h);
             }
         }
-        if (!cut_short) { completed_depth = depth; if (depth <= crash_depth) completed_crash_depth = depth; }
+        if (!cut_short) { completed_depth = depth; if (depth <= crash_depth && big) completed_crash_depth = depth; }
         frontier = std::move(next_frontier);
     }
     recorder.stop();
@@ -419,7 +421,7 @@ int main(int argc, char** argv)
     E.exhaustive = !cut_short;
     E.rule = "histories over {R_t GetNewDestination, C_t GetNewChangeDestination, V_t reserve+return a change address, X clean restart} x 4 output types, breadth-first to depth " +
              std::to_string(max_depth) + ", merged when the DB records, every descriptor manager's (next_index, range_end, max_cached_index) and the set of handed-out addresses coincide; "
-             "per history the complete op log (clean close) and, to depth " + std::to_string(crash_depth) + (big ? "" : " (operations on legacy and bech32m descriptors, and X)") +
+             "per history the complete op log (clean close) and, " + (big ? "for every history to depth " + std::to_string(crash_depth) : std::string("for the histories {R0 R0} {C3 C3} {R3 X} {C0 V0}")) +
              ", every crash state with crash point in the last operation (kill: every op-log prefix" +
              (torn_depth ? ", torn last write 1/half/n-1 bytes to depth " + std::to_string(torn_depth) : std::string()) +
              "; power loss: every (cut, crash point) with the synced ops surviving), deduplicated by materialised bytes, each reloaded in a fresh process that requests 3 receiving + 3 change addresses of each type. "
